@@ -542,6 +542,56 @@ def op_update(h, qd, us, via=None, all_=False):
     require(r == n, lambda: f"update returned {show(r)}, model changed {n} points [q={qd and q_repr(qd)} {us} via={show(via)}]")
 
 
+class _Boom(RuntimeError):
+    pass
+
+
+def op_update_fail(h, qd, slot):
+    """update() that edits tags statically and whose `slot` callable raises on its 2nd call:
+    the call must raise and leave the contents (model) untouched."""
+    n = [0]
+
+    def cb(old):
+        n[0] += 1
+        if n[0] >= 2:
+            raise _Boom("user callable failed")
+        return {"zz": "1"} if slot == "tags" else {"zz": 1}
+
+    kw = {slot: cb}
+    if slot == "fields":
+        kw["tags"] = {"zz": "static"}
+    nsel = len(h.model.matches(qd, None))
+    try:
+        r = h.db.update(h.compile(qd), **kw)
+    except _Boom:
+        require(nsel >= 2, lambda: "update raised although fewer than two points were selected")
+        return
+    except Exception as e:
+        fail(lambda: f"update with a raising callable raised {type(e).__name__}: {e}")
+    require(nsel < 2, lambda: f"update with a callable that raises on its 2nd call returned {r} for {nsel} selected points")
+    ch = make_change(**({"tags": {"zz": "1"}} if slot == "tags" else {"fields": {"zz": 1}, "tags": {"zz": "static"}}))
+    nchg = h.model.update(qd, None, ch)
+    require(r == nchg, lambda: f"update returned {r}, model changed {nchg}")
+
+
+def op_insert_multiple_fail(h, pspecs):
+    """insert_multiple whose last element is not a Point: raises, the prefix stays stored."""
+    pts, mps = [], []
+    for s in pspecs:
+        p, mp = h.mk_point(s)
+        pts.append(p)
+        mps.append(mp)
+    try:
+        h.db.insert_multiple(pts + ["not a point"])
+    except TypeError:
+        for mp in mps:
+            h.model.insert(mp)
+        return
+    except Exception as e:
+        fail(lambda: f"insert_multiple with a non-Point raised {type(e).__name__}: {e}")
+    fail("insert_multiple with a non-Point did not raise")
+
+
 def op_reindex(h):
     try:
         if not h.db.index.valid:
@@ -566,6 +616,10 @@ def apply_op(h, op):
         return op_update(h, h.q(op[1]), *op[2:])
     if k == "updall":
         return op_update(h, None, op[1], *(op[2:] or (None,)), all_=True)
+    if k == "upd_fail":
+        return op_update_fail(h, h.q(op[1]), op[2])
+    if k == "insm_fail":
+        return op_insert_multiple_fail(h, op[1])
     if k == "reindex":
         return op_reindex(h)
     if k == "reopen":
